@@ -3,18 +3,22 @@
 What runs here (see design.d/C15.md):
   * generator of merge cases (JSON): 1-4 parts over one metrical layout, one divisions value per part
     (pairs/triples whose lcm exceeds all of them, equal values), notes / grace notes / tied notes /
-    rests with 1-4 voices (with gaps, rest-only voices), staves present / missing / mixed (staves used
-    only by rests, clefs, words or directions), non-structural elements (slurs, tuplets, words,
-    directions, repeats), structural elements in several parts, the containers merge_parts accepts
-    (list, tuple, Score, PartGroup, nested groups, a Part), the three reassign modes; inputs are
-    rebuilt for every call (merge_parts modifies its input);
+    rests / unpitched notes (GenericNotes that are neither Note nor Rest) with 1-4 voices (with gaps, voices
+    used by rests or unpitched notes only), staves present / missing / mixed (staves used only by rests,
+    clefs, words or directions), non-structural elements (slurs, tuplets, words, directions, repeats, ...),
+    structural elements in several parts, the arguments merge_parts accepts (list, tuple, Score, PartGroup,
+    a Part; random forests of groups), the three reassign modes; two-step histories (a merged part
+    merged again); one instance of every TimedObject class of the live partitura.score (class sweep);
+    inputs are rebuilt for every call (merge_parts modifies its input);
   * direct oracle (Python, independent of the Coq model): the property statement evaluated on the
-    real merged part (see check_case);
+    real merged part (see check_case) and on load_score_as_part of exported files (check_loader);
   * correspondence: the Gallina model (coq/Model/C15.v) evaluated by vm_compute on the same input
     must give the same result: which part is returned / the lcm and every element of the merged part
-    (origin, class, start, end, voice, staff), the merged part's note array with staff, the
-    score-level note array, and the link between the two.
+    (origin, class, start, end, voice, staff), the closed forms (offsets as running sums, structural
+    elements of the first input) on the observed elements, the merged part's note array with staff, the
+    score-level note array, the link between the two, and the loader's note array.
 """
+import inspect
 import json
 import math
 import os
@@ -28,7 +32,13 @@ CMODE = {"voice": "MVoice", "staff": "MStaff", "auto": "MAuto"}
 PC = [("C", 0), ("C", 1), ("D", 0), ("D", 1), ("E", 0), ("F", 0), ("F", 1), ("G", 0), ("G", 1), ("A", 0), ("A", 1), ("B", 0)]
 DIRECTIONS = ["ConstantLoudnessDirection", "IncreasingLoudnessDirection", "SustainPedalDirection",
               "ConstantTempoDirection", "Direction"]
-OTHERS = ["Repeat", "Segno", "Coda"]
+OTHERS = ["Repeat", "Segno", "Coda", "DalSegno", "ToCoda", "Harmony", "OctaveShiftDirection", "Staff", "Phrase"]
+# element classes of the specifications that are GenericNote objects (carry the voice that gets renumbered);
+# "UnpitchedNote" (percussion) and a bare "GenericNote" are GenericNotes that are neither Note nor Rest
+GENERIC_CLS = ("Note", "GraceNote", "Rest", "UnpitchedNote", "GenericNote")
+SOUNDING_CLS = ("Note", "GraceNote")           # rows of the note array
+GENERIC_KINDS = ("KNote", "KGrace", "KRest", "KUnpitched")
+STAFFED_KINDS = GENERIC_KINDS + ("KWords", "KDirection", "KClef")
 # classes the documentation of merge_parts lists as "only taken from the first part"
 DOC_STRUCTURAL = ["KBarline", "KPage", "KSystem", "KClef", "KMeasure", "KTimeSig", "KKeySig"]
 # classes merge_parts drops from later parts although the documentation does not list them (C15-K2)
@@ -45,7 +55,7 @@ TS_CHOICES = [(4, 4, 4), (3, 4, 3), (2, 4, 2), (6, 8, 3), (5, 4, 5), (2, 2, 4)] 
 def kind_of(o):
     """Class of an object as far as merge_parts distinguishes classes, read from the live hierarchy."""
     import partitura.score as S
-    table = [(S.Rest, "KRest"), (S.GraceNote, "KGrace"), (S.GenericNote, "KNote"), (S.Words, "KWords"),
+    table = [(S.Rest, "KRest"), (S.GraceNote, "KGrace"), (S.Note, "KNote"), (S.GenericNote, "KUnpitched"), (S.Words, "KWords"),
              (S.Direction, "KDirection"), (S.Clef, "KClef"), (S.Measure, "KMeasure"),
              (S.TimeSignature, "KTimeSig"), (S.KeySignature, "KKeySig"), (S.Barline, "KBarline"),
              (S.Page, "KPage"), (S.System, "KSystem"), (S.DaCapo, "KDaCapo"), (S.Fine, "KFine"),
@@ -60,6 +70,8 @@ def kind_of(o):
 def make_object(el, objs, pid, i):
     import partitura.score as S
     c = el["cls"]
+    if el.get("generic_ctor"):
+        return instantiate(c, el, pid, i)
     if c in ("Note", "GraceNote"):
         step, alter = PC[el["pitch"] % 12]
         kw = dict(step=step, octave=el["pitch"] // 12 - 1, alter=alter or None, id="%s_n%d" % (pid, i),
@@ -67,6 +79,17 @@ def make_object(el, objs, pid, i):
         return S.GraceNote("grace", **kw) if c == "GraceNote" else S.Note(**kw)
     if c == "Rest":
         return S.Rest(id="%s_r%d" % (pid, i), voice=el["voice"], staff=el["staff"])
+    if c == "UnpitchedNote":
+        step, _ = PC[el.get("pitch", 60) % 12]
+        return S.UnpitchedNote(step=step, octave=el.get("pitch", 60) // 12 - 1, id="%s_u%d" % (pid, i), voice=el["voice"], staff=el["staff"])
+    if c == "GenericNote":
+        return S.GenericNote(id="%s_g%d" % (pid, i), voice=el["voice"], staff=el["staff"])
+    if c == "OctaveShiftDirection":
+        return S.OctaveShiftDirection("up", 8, staff=el.get("staff"))
+    if c == "Staff":
+        return S.Staff(el.get("number", 1))
+    if c == "Harmony":
+        return S.Harmony("C7")
     if c == "Words":
         return S.Words("w%d" % i, staff=el["staff"])
     if c in DIRECTIONS:
@@ -102,6 +125,54 @@ def make_object(el, objs, pid, i):
     if c in OTHERS:
         return getattr(S, c)()
     raise ValueError("unknown class in specification: %r" % c)
+
+
+class Uninstantiable(Exception):
+    pass
+
+
+CTOR_ARGS = {"step": "C", "octave": 4, "grace_type": "grace", "number": 1, "sign": "G", "line": 2, "octave_change": 0,
+             "style": "light-heavy", "beats": 4, "beat_type": 4, "bpm": 90, "fifths": 0, "mode": "major", "diatonic": 0,
+             "chromatic": 0, "text": "t", "shift_type": "up", "root": "C", "kind": "major", "to": [], "await_to": []}
+
+
+def instantiate(name, el, pid, i):
+    """An instance of ANY TimedObject class of the live partitura.score (the class sweep): the required
+    constructor arguments of the class and its bases are filled by name; the voice / staff of the
+    specification are stored when the object has such an attribute."""
+    import partitura.score as S
+    cls = getattr(S, name)
+    kw = {}
+    for k in cls.__mro__:
+        init = k.__dict__.get("__init__")
+        if init is None or k is object:
+            continue
+        prms = list(inspect.signature(init).parameters.values())[1:]
+        forwards = any(prm.kind in (prm.VAR_POSITIONAL, prm.VAR_KEYWORD) for prm in prms)
+        for prm in prms:
+            if prm.kind in (prm.VAR_POSITIONAL, prm.VAR_KEYWORD) or prm.default is not inspect.Parameter.empty:
+                continue
+            if prm.name == "staff":
+                kw["staff"] = el.get("staff")
+            elif prm.name == "id":
+                kw["id"] = "%s_x%d" % (pid, i)
+            elif prm.name in CTOR_ARGS:
+                kw[prm.name] = CTOR_ARGS[prm.name]
+            else:
+                raise Uninstantiable("%s: constructor argument %r" % (name, prm.name))
+        if not forwards:
+            break             # this __init__ takes no *args / **kwargs: the bases' arguments are its own business
+    try:
+        o = cls(**kw)
+    except Exception as e:
+        raise Uninstantiable("%s(%s): %s" % (name, ", ".join(sorted(kw)), e))
+    if hasattr(o, "voice"):
+        o.voice = el.get("voice")
+    if hasattr(o, "staff"):
+        o.staff = el.get("staff")
+    if isinstance(o, S.GenericNote):
+        o.id = "%s_x%d" % (pid, i)
+    return o
 
 
 def build_part(spec):
@@ -175,11 +246,11 @@ def _int(x):
 def obj_state(o, oid_of, pi):
     tp, tn = getattr(o, "tie_prev", None), getattr(o, "tie_next", None)
     k = kind_of(o)
-    return {"oid": oid_of[id(o)], "part": pi, "kind": k,
+    return {"oid": oid_of[id(o)], "part": pi, "kind": k, "cls": type(o).__name__,
             "s": _int(o.start.t) if o.start is not None else None,
-            "e": _int(o.end.t) if o.end is not None else None,
+            "e": _int(o.end.t) if getattr(o, "end", None) is not None else None,
             "voice": _int(getattr(o, "voice", None)), "staff": _int(getattr(o, "staff", None)),
-            "pitch": int(o.midi_pitch) if k in ("KNote", "KGrace") else 0,
+            "pitch": int(o.midi_pitch) if k in ("KNote", "KGrace") else 0,      # pitch of the rows of the note array
             "tie_prev": oid_of.get(id(tp)) if tp is not None else None,
             "tie_next": oid_of.get(id(tn)) if tn is not None else None}
 
@@ -281,6 +352,15 @@ def gen_part(rng, pi, d, layout, layout_flags, mode, many_voices=False, n_measur
         else:
             els.append({"cls": "Note", "s": s, "e": e, "voice": v, "staff": rng.choice(pool), "pitch": rng.randint(40, 90)})
         note_idx.append(len(els) - 1)
+    # GenericNotes that are neither Note nor Rest (percussion notation: UnpitchedNote; a bare GenericNote):
+    # in the voices of the pitched notes, or -- as a drum line usually is -- in a voice / on a staff of their own
+    if content != "no_notes" and rng.random() < 0.3:
+        own_voice = max(voices) + rng.randint(1, 2) if rng.random() < 0.6 else rng.choice(voices)
+        own_staff = rng.choice([None, 1, 2, 3]) if rng.random() < 0.4 else rng.choice(pool)
+        for _ in range(rng.choice([1, 1, 2, 3])):
+            s, e = span()
+            els.append({"cls": "UnpitchedNote" if rng.random() < 0.85 else "GenericNote", "s": s, "e": e,
+                        "voice": own_voice if rng.random() < 0.8 else rng.choice(voices), "staff": own_staff, "pitch": rng.randint(60, 72)})
     # rests: mostly in the voices/staves of the notes, sometimes in a voice or staff of their own
     for _ in range(rng.choice([0, 0, 1, 2, 3])):
         s, e = span()
@@ -329,40 +409,60 @@ def gen_part(rng, pi, d, layout, layout_flags, mode, many_voices=False, n_measur
     return {"id": "P%d" % pi, "divs": d, "elems": els}
 
 
-CONTAINERS = ["list", "list", "list", "score", "score", "group", "nested", "nested2", "tuple", "score_nested"]
+def rand_forest(rng, idx, depth=0):
+    """A random forest over consecutive part indices: groups anywhere (before, between and after plain parts),
+    nested up to three levels, now and then an empty group."""
+    out = []
+    i = 0
+    while i < len(idx):
+        if depth < 3 and rng.random() < 0.4:
+            j = rng.randint(i + 1, len(idx))
+            out.append(rand_forest(rng, idx[i:j], depth + 1))
+            i = j
+        else:
+            out.append(idx[i])
+            i += 1
+        if depth < 2 and rng.random() < 0.05:
+            out.append([])
+    return out
 
 
 def gen_container(rng, n):
+    """The argument of merge_parts: a list / tuple / Score of parts and groups, or one PartGroup (or Part)."""
     if n == 1:
         return rng.choice([{"type": "list", "tree": [0]}, {"type": "part", "tree": [0]}, {"type": "group", "tree": [[0]]},
                            {"type": "score", "tree": [0]}, {"type": "group", "tree": [[[0]]]}, {"type": "list", "tree": [[0]]},
-                           {"type": "score", "tree": [[0]]}, {"type": "tuple", "tree": [0]}])
-    c = rng.choice(CONTAINERS)
+                           {"type": "score", "tree": [[0]]}, {"type": "tuple", "tree": [0]}, {"type": "score", "tree": [[], [0]]},
+                           {"type": "list", "tree": [[[0], []]]}])
     idx = list(range(n))
-    if c in ("list", "tuple", "score"):
-        return {"type": c, "tree": idx}
-    if c == "group":
-        return {"type": "group", "tree": [idx]}
-    if c == "nested":                       # a list holding a group and parts
-        k = rng.randint(1, n - 1) if n > 1 else 1
-        return {"type": "list", "tree": [idx[:k]] + idx[k:]}
-    if c == "nested2":                      # a group holding a group
-        k = rng.randint(1, n - 1)
-        return {"type": "group", "tree": [[idx[:k]] + idx[k:]]}
-    k = rng.randint(1, n - 1)
-    return {"type": "score", "tree": idx[:k] + [idx[k:]]}
-
-
-def gen_case(rng, mode=None, force_many_voices=False):
-    mode = mode or rng.choice(MODES)
-    ds = list(rng.choice(DIVS_SETS))
     r = rng.random()
-    if r < 0.07:
+    if r < 0.35:
+        return {"type": rng.choice(["list", "list", "score", "score", "tuple"]), "tree": idx}
+    if r < 0.45:
+        return {"type": "group", "tree": [idx]}
+    ty = rng.choice(["list", "score", "score", "group", "tuple"])
+    if r < 0.65:                            # a group first, plain parts after it
+        k = rng.randint(1, n - 1)
+        forest = [idx[:k] if rng.random() < 0.7 else [idx[:k]]] + idx[k:]
+    else:
+        forest = rand_forest(rng, idx)
+    return {"type": ty, "tree": [forest] if ty == "group" else forest}
+
+
+def gen_case(rng, mode=None, force_many_voices=False, force_history=False):
+    mode = mode or rng.choice(MODES)
+    ds = list(rng.choice(DIVS_SETS if not force_history else [d for d in DIVS_SETS if len(d) >= 3]))
+    r = rng.random()
+    if force_history:
+        pass
+    elif r < 0.07:
         ds = ds[:1]                                  # a single part
     elif r < 0.17 and len(ds) < 4:
         ds.append(rng.choice(ds + [1, 7]))
     rng.shuffle(ds)
-    if len(ds) > 2 and rng.random() < 0.3:
+    if force_history:
+        ds = ds[:3]
+    elif len(ds) > 2 and rng.random() < 0.3:
         ds = ds[:2]                                  # (merge_parts costs milliseconds per time point)
     layout = gen_layout(rng)
     parts = []
@@ -384,8 +484,20 @@ def gen_case(rng, mode=None, force_many_voices=False):
             content = "empty"
         parts.append(gen_part(rng, pi, d, layout, flags, mode, many_voices=(pi == many_at), n_measures=nmeas, content=content))
     assign_identities(rng, parts)
-    return {"mode": mode, "container": gen_container(rng, len(parts)), "parts": parts,
-            "pickup": layout["pickup"]}
+    case = {"mode": mode, "container": gen_container(rng, len(parts)), "parts": parts, "pickup": layout["pickup"]}
+    r = rng.random() if not force_history else 0.0
+    if r < 0.14 and len(parts) >= 3 and not many:
+        # a history: the first k parts are merged first (any mode), the merged part is the first input
+        k = rng.randint(2, len(parts) - 1)
+        case["pre"] = {"k": k, "mode": rng.choice(MODES)}
+        case["container"] = gen_container(rng, len(parts) - k + 1)
+    elif r < 0.18:
+        # outside the quantifier: a note or rest without voice ("voice" / "auto" raise, "staff" merges)
+        gs = [(pi, ei) for pi, sp in enumerate(parts) for ei, e in enumerate(sp["elems"]) if e["cls"] in GENERIC_CLS]
+        if gs:
+            pi, ei = rng.choice(gs)
+            parts[pi]["elems"][ei]["voice"] = None
+    return case
 
 
 def assign_identities(rng, parts):
@@ -436,6 +548,51 @@ def small_scope_cases():
     return out
 
 
+def live_classes():
+    """Names of all TimedObject classes of the live partitura.score (the finite domain of the class sweep)."""
+    import partitura.score as S
+    from partitura.utils.generic import iter_subclasses
+    return sorted({c.__name__ for c in iter_subclasses(S.TimedObject) if getattr(S, c.__name__, None) is c})
+
+
+def class_sweep_cases(complete=True, rot=0):
+    """One case per (TimedObject class of the live hierarchy, reassign mode): an instance x of the class with
+    voice 2 / staff 2 (where it has such attributes) in the SECOND of three parts, next to a note in voice 1 /
+    staff 1; the third part uses voices 1, 2 and staves 1, 2, so an x that is renumbered but not counted when the
+    offsets are sized meets the third part's numbers.  For a third of the (class, mode) pairs also x in the FIRST
+    part (which keeps everything).  Six time points per case (merge_parts walks every class of the interpreter at
+    every time point, about 30 ms each).
+    complete=False (quick tier): all three modes for the GenericNote classes, Words and Clef; every other
+    class in one mode (rotating with the seed).
+    Returns (cases, names of the classes that could not be instantiated)."""
+    import partitura.score as S
+    N = lambda s, e, v, st, p: {"cls": "Note", "s": s, "e": e, "voice": v, "staff": st, "pitch": p}
+    out, skipped = [], []
+    for k, name in enumerate(live_classes()):
+        cls = getattr(S, name)
+        dur = 0 if issubclass(cls, S.GraceNote) else (1 if issubclass(cls, S.GenericNote) else None)
+        x = {"cls": name, "generic_ctor": True, "voice": 2, "staff": 2}
+        try:
+            if not hasattr(instantiate(name, x, "P", 0), "end") and dur is None:
+                dur = 1                   # (Segment: no `end` attribute unless it is added with an end time)
+        except Uninstantiable as e:
+            skipped.append(str(e))
+            continue
+        every_mode = complete or issubclass(cls, (S.GenericNote, S.Words, S.Clef)) or cls is S.Direction
+        for mi, mode in enumerate(MODES):
+            if not every_mode and (k + rot) % 3 != mi:
+                continue
+            for first in ([False, True] if (k + mi) % 3 == 0 else [False]):
+                d = 2 if first else 3
+                xe = dict(x, s=0, e=(None if dur is None else dur * d))
+                parts = [{"id": "P0", "divs": 2, "elems": [N(0, 2, 1, 1, 60)] + ([xe] if first else [])},
+                         {"id": "P1", "divs": 3, "elems": [N(0, 3, 1, 1, 64)] + ([] if first else [xe])},
+                         {"id": "P2", "divs": 4, "elems": [N(0, 4, 1, 1, 67), N(0, 4, 2, 2, 69)]}]
+                out.append({"mode": mode, "container": {"type": "list", "tree": [0, 1, 2]}, "pickup": False, "parts": parts,
+                            "sweep_class": name})
+    return out, skipped
+
+
 def corpus_cases():
     """Hand-written edge cases (always run first): the inputs of D22, of the stale quarter map, of the
     rest-only voice / clef-only staff, lcm above every divisions value, containers of one part."""
@@ -461,6 +618,12 @@ def corpus_cases():
         out.append({"mode": mode, "container": {"type": "list", "tree": [0, 1]}, "pickup": False,
                     "parts": [P(0, 2, M(2) + [N(0, 2, 1, 1), N(2, 4, 2, 1, 62), R(4, 6, 3, 2), {"cls": "Clef", "s": 0, "e": None, "staff": 2, "sign": "F"}]),
                               P(1, 3, M(3) + [N(0, 3, 1, 1, 64), N(3, 6, 1, 1, 65)])]})
+        # percussion: pitched notes in voice 1, unpitched notes (a GenericNote that is neither Note nor Rest) in a
+        # voice and on a staff of their own, in a part that is not the last
+        out.append({"mode": mode, "container": {"type": "list", "tree": [0, 1]}, "pickup": False,
+                    "parts": [P(0, 4, M(4) + [N(0, 4, 1, 1), {"cls": "UnpitchedNote", "s": 0, "e": 4, "voice": 2, "staff": 2, "pitch": 64},
+                                              {"cls": "UnpitchedNote", "s": 4, "e": 8, "voice": 2, "staff": 2, "pitch": 65}]),
+                              P(1, 2, M(2) + [N(2, 4, 1, 1, 67), N(4, 6, 2, 2, 69)])]})
         # tied notes, continuation in a higher voice; grace note; equal divisions
         out.append({"mode": mode, "container": {"type": "group", "tree": [[0, 1]]}, "pickup": False,
                     "parts": [P(0, 4, M(4) + [N(0, 4, 1, 1, 60, tie_next=4), N(4, 8, 2, 1, 60), {"cls": "GraceNote", "s": 8, "e": 8, "voice": 1, "staff": 1, "pitch": 70}]),
@@ -484,6 +647,13 @@ def corpus_cases():
                     "parts": [P(0, 4, M(4, 1) + [R(0, 6, 1, 1), {"cls": "KeySignature", "s": 0, "e": None, "fifths": -2, "kmode": "minor"},
                                                  {"cls": "Barline", "s": 16, "e": None}, {"cls": "Clef", "s": 0, "e": None, "staff": 1, "sign": "G"}]),
                               P(1, 6, M(6, 2) + [N(1, 5, 1, 1, 50), N(25, 31, 1, 1, 52), {"cls": "IncreasingLoudnessDirection", "s": 5, "e": 25, "staff": 1}])]})
+        # history: (2, 3) merged in "staff" mode first, the merged part (6) then merged with divisions 4 -> 12
+        out.append({"mode": mode, "container": {"type": "list", "tree": [0, 1]}, "pickup": False, "pre": {"k": 2, "mode": "staff"},
+                    "parts": [P(0, 2, M(2) + [N(0, 2, 1, 1), N(2, 4, 2, None, 62)]), P(1, 3, M(3) + [N(3, 6, 1, 2, 64), R(6, 9, 2, 1)]),
+                              P(2, 4, M(4) + [N(1, 5, 1, 1, 67), {"cls": "Words", "s": 4, "e": None, "staff": 1}])]})
+        # outside the quantifier: a rest without voice in the second part ("voice" and "auto" raise)
+        out.append({"mode": mode, "container": {"type": "list", "tree": [0, 1]}, "pickup": False,
+                    "parts": [P(0, 2, M(2) + [N(0, 2, 1, 1)]), P(1, 3, M(3) + [N(3, 6, 1, 1, 64), R(6, 9, None, 1)])]})
         # containers of one part
         for cont in ({"type": "list", "tree": [0]}, {"type": "part", "tree": [0]}, {"type": "group", "tree": [[0]]}, {"type": "score", "tree": [[0]]}):
             out.append({"mode": mode, "container": cont, "pickup": False, "parts": [P(0, 4, M(4) + [N(0, 4, 2, None), R(4, 8, 1, 2)])]})
@@ -494,20 +664,51 @@ def corpus_cases():
 # running the implementation
 
 
-def run_case(case):
-    """Build fresh inputs, call merge_parts.  Returns a dict with everything observed."""
+def build_inputs(case):
+    """Fresh inputs of the case.  Returns a dict: parts / objs / divs of the EFFECTIVE inputs (what the
+    container tree indexes), oid_of (identity of every object built), and -- when the case has a history
+    ("pre": {"k": k, "mode": m}: the first k specified parts are merged first, the merged part is the first
+    effective input) -- raw: oid -> state of the object in its original part, with that part's divisions."""
     import partitura.score as S
     built = [build_part(sp) for sp in case["parts"]]
     parts = [b[0] for b in built]
     objs = [b[1] for b in built]
+    divs = [sp["divs"] for sp in case["parts"]]
     oid_of = {}
     for pi, os_ in enumerate(objs):
         for ei, o in enumerate(os_):
             oid_of[id(o)] = 1000 * (pi + 1) + ei
+    out = {"parts": parts, "objs": objs, "divs": divs, "oid_of": oid_of}
+    pre = case.get("pre")
+    if pre:
+        k = pre["k"]
+        raw = {}
+        for pi in range(k):
+            for o in objs[pi]:
+                raw[oid_of[id(o)]] = dict(obj_state(o, oid_of, pi), divs=divs[pi])
+        first = S.merge_parts(parts[:k], reassign=pre["mode"])         # step one of the history
+        kept = sorted((o for o in all_elements(first) if id(o) in oid_of), key=lambda o: oid_of[id(o)])
+        out.update(parts=[first] + parts[k:], objs=[kept] + objs[k:], divs=[int(first._quarter_durations[0])] + divs[k:],
+                   raw=raw, raw_divs=divs)
+    return out
+
+
+def run_case(case):
+    """Build fresh inputs, call merge_parts.  Returns a dict with everything observed."""
+    import partitura.score as S
+    try:
+        inp = build_inputs(case)
+    except Uninstantiable:
+        raise
+    except Exception as e:
+        if not case.get("pre"):
+            raise
+        return {"exc": "%s: %s (in the first merge of the history)" % (type(e).__name__, e), "before": [], "flat": flat_order(case["container"]["tree"])}
+    parts, objs, oid_of = inp["parts"], inp["objs"], inp["oid_of"]
     before = snapshot(objs, oid_of)
     arg = build_container(case, parts)
     flat = [parts[i] for i in flat_order(case["container"]["tree"])]
-    out = {"before": before, "flat": flat_order(case["container"]["tree"]), "oid_of": oid_of, "parts": parts, "objs": objs}
+    out = dict(inp, before=before, flat=flat_order(case["container"]["tree"]))
     try:
         res = S.merge_parts(arg, reassign=case["mode"])
     except Exception as e:
@@ -521,10 +722,15 @@ def run_case(case):
 def score_array_of(case):
     """Score-level note array of freshly built inputs (flattened order)."""
     import partitura.score as S
-    parts = [build_part(sp)[0] for sp in case["parts"]]
+    parts = build_inputs(case)["parts"]
     flat = [parts[i] for i in flat_order(case["container"]["tree"])]
     sc = S.Score(flat)
     return sc.note_array()
+
+
+def voiceless(case):
+    """True when some note or rest of the case has no voice (outside the quantifier: "voice" and "auto" raise)."""
+    return any(e.get("voice") is None for sp in case["parts"] for e in sp["elems"] if e["cls"] in GENERIC_CLS)
 
 
 def kept_expected(kind, part_pos, mode):
@@ -551,7 +757,13 @@ def check_case(case, obs=None):
     flat = obs["flat"]
     pos_of = {pi: k for k, pi in enumerate(flat)}          # part index -> position in the flattened list
     if "exc" in obs:
+        if voiceless(case) and mode != "staff" and len(flat) > 1 and "history" not in obs["exc"]:
+            obs["expected_raise"] = True          # outside the quantifier; the model must raise as well
+            return None, "", obs
         return "exception", "merge_parts(reassign=%r) raised %s" % (mode, obs["exc"]), obs
+    if voiceless(case) and mode != "staff" and len(flat) > 1:
+        obs["outside_quantifier"] = True          # merged although a note / rest has no voice: nothing is claimed
+        return None, "", obs
     res = obs["result"]
     before = obs["before"]
     if len(flat) == 1:
@@ -568,8 +780,11 @@ def check_case(case, obs=None):
     import partitura.score as S
     if not isinstance(res, S.Part) or any(res is p for p in obs["parts"]):
         return "not_new_part", "result is not a new Part", obs
-    ds = [case["parts"][pi]["divs"] for pi in flat]
+    ds = [obs["divs"][pi] for pi in flat]
     L = lcm_list(ds)
+    if "raw" in obs and 0 in flat and L != lcm_list(ds + obs["raw_divs"][:case["pre"]["k"]]):
+        return "divisions", "history: the first input is itself a merged part counting in %d, not in the lcm of its inputs' divisions %r" % (
+            obs["divs"][0], obs["raw_divs"][:case["pre"]["k"]]), obs
     # the merged part counts time in the lcm of the divisions
     if list(res._quarter_durations) != [L] or list(res._quarter_times) != [0]:
         return "divisions", "merged part has quarter durations %r at %r, expected the lcm %d of %r" % (
@@ -605,27 +820,33 @@ def check_case(case, obs=None):
                     "Measure, TimeSignature, KeySignature as taken from the first part)" % (b["kind"][1:], pos_of[b["part"]])),
                     {"kind": b["kind"], "part_pos": pos_of[b["part"]]}))
                 continue
-            return "element_missing", "%s (element %d) of input %d is missing from the merged part" % (b["kind"][1:], b["oid"], pos_of[b["part"]]), obs
+            return "element_missing", "%s (element %d) of input %d is missing from the merged part" % (b["cls"], b["oid"], pos_of[b["part"]]), obs
         if want == "drop" and have:
             return "structural_not_first", "%s of input %d is in the merged part (structural elements come from the first part only)" % (
-                b["kind"][1:], pos_of[b["part"]]), obs
+                b["cls"], pos_of[b["part"]]), obs
     # O1: same musical time (quarters from division 0), exactly
     for m in merged:
         b = by_oid[m["oid"]]
-        d = case["parts"][b["part"]]["divs"]
+        d = obs["divs"][b["part"]]
         if m["kind"] != b["kind"] or m["pitch"] != b["pitch"]:
             return "element_changed", "element %d changed class or pitch" % m["oid"], obs
         if Fraction(m["s"], L) != Fraction(b["s"], d):
             return "time", "%s of input %d starts at %d/%d quarters in the merged part, at %d/%d in its part" % (
-                b["kind"][1:], pos_of[b["part"]], m["s"], L, b["s"], d), obs
+                b["cls"], pos_of[b["part"]], m["s"], L, b["s"], d), obs
         if (m["e"] is None) != (b["e"] is None) or (b["e"] is not None and Fraction(m["e"], L) != Fraction(b["e"], d)):
             return "time", "%s of input %d ends at %r/%d quarters in the merged part, at %r/%d in its part" % (
-                b["kind"][1:], pos_of[b["part"]], m["e"], L, b["e"], d), obs
+                b["cls"], pos_of[b["part"]], m["e"], L, b["e"], d), obs
         if m["tie_next"] != b["tie_next"] or m["tie_prev"] != b["tie_prev"]:
             return "element_changed", "tie links of element %d changed" % m["oid"], obs
+        # history: an element that went through two merges stands where it stood in its ORIGINAL part
+        rb = obs.get("raw", {}).get(m["oid"])
+        if rb is not None and b["part"] == 0:
+            if Fraction(m["s"], L) != Fraction(rb["s"], rb["divs"]) or (rb["e"] is not None and Fraction(m["e"], L) != Fraction(rb["e"], rb["divs"])):
+                return "time_history", "%s merged twice stands at [%d, %r]/%d quarters, in its original part at [%d, %r]/%d" % (
+                    rb["cls"], m["s"], m["e"], L, rb["s"], rb["e"], rb["divs"]), obs
     # O2: voices / staves
-    gen = [m for m in merged if m["kind"] in ("KNote", "KGrace", "KRest")]
-    staffed = [m for m in merged if m["kind"] in ("KNote", "KGrace", "KRest", "KWords", "KDirection", "KClef")]
+    gen = [m for m in merged if m["kind"] in GENERIC_KINDS]
+    staffed = [m for m in merged if m["kind"] in STAFFED_KINDS]
 
     def disjoint_coherent(items, attr, old_of, what):
         groups = {}
@@ -636,7 +857,7 @@ def check_case(case, obs=None):
                 a = ms[0]
                 b_ = next(x for x in ms if x["part"] != a["part"])
                 return ("%s_collision" % what, "%s of input %d and %s of input %d share %s %r in the merged part" % (
-                    a["kind"][1:], pos_of[a["part"]], b_["kind"][1:], pos_of[b_["part"]], what, v),
+                    a["cls"], pos_of[a["part"]], b_["cls"], pos_of[b_["part"]], what, v),
                     {"what": what, "value": v, "kinds": sorted({a["kind"], b_["kind"]})})
             if len({old_of(by_oid[m["oid"]]) for m in ms}) > 1:
                 return ("%s_merged" % what, "elements of input %d with different %ss got the same %s %r" % (pos_of[ms[0]["part"]], what, what, v), None)
@@ -660,9 +881,9 @@ def check_case(case, obs=None):
             if r[0] == "voice_collision" and mode == "auto":
                 per_part = {}
                 for pi in flat:
-                    vs = {b["voice"] for b in before if b["part"] == pi and b["kind"] in ("KNote", "KGrace", "KRest")}
+                    vs = {b["voice"] for b in before if b["part"] == pi and b["kind"] in GENERIC_KINDS}
                     ss = {(b["staff"] if b["staff"] is not None else 1) for b in before if b["part"] == pi and
-                          b["kind"] in ("KNote", "KGrace", "KRest", "KWords", "KDirection", "KClef")}
+                          b["kind"] in STAFFED_KINDS}
                     per_part[pos_of[pi]] = [len(vs), len(ss)]
                 detail = dict(detail, voices_staves_per_part=per_part)
             return r[0], r[1], dict(obs, detail=detail)
@@ -685,6 +906,8 @@ def check_case(case, obs=None):
         lack = [x for x in ks if x not in km][:2]
         return "sounding_notes", ("sounding notes (onset, duration in quarters, pitch) of the merged part differ from the score-level note array: "
                                   "%d vs %d rows; only merged %s; only score %s" % (len(km), len(ks), [tuple(map(str, x)) for x in extra], [tuple(map(str, x)) for x in lack])), obs
+    if case.get("pre"):
+        return None, "", obs           # (the quarter columns are compared on cases without history)
     full = all(any(e["cls"] == "Measure" for e in case["parts"][pi]["elems"]) and any(e["cls"] == "TimeSignature" for e in case["parts"][pi]["elems"]) for pi in flat)
     # onset_quarter comes from each part's own quarter map: comparable when the parts agree on the pickup
     # (same first measure and time signature) and no part is degenerate (a part with a single time
@@ -720,17 +943,25 @@ def c_tagged(st, pos_of):
     return "(%s, %s)" % (cnat(pos_of[st["part"]]), c_elem(st))
 
 
-def c_part(case, before, pi):
+def c_part(case, before, pi, divs=None):
     els = [b for b in before if b["part"] == pi]
-    return "((%s : list elem), %s)" % (clist([c_elem(b) for b in els]), cz(case["parts"][pi]["divs"]))
+    return "((%s : list elem), %s)" % (clist([c_elem(b) for b in els]), cz((divs or [sp["divs"] for sp in case["parts"]])[pi]))
 
 
-def c_trees(case, before):
+def c_trees(case, before, divs=None):
+    """The argument of merge_parts as the model's [arg]: a Score built from the trees, a list / tuple of
+    trees, or a single Part / PartGroup."""
     def tr(t):
         if isinstance(t, int):
-            return "(TPart %s)" % c_part(case, before, t)
+            return "(TPart %s)" % c_part(case, before, t, divs)
         return "(TGroup %s)" % clist([tr(x) for x in t])
-    return "(%s : list tree)" % clist([tr(t) for t in case["container"]["tree"]])
+    trees = "(%s : list tree)" % clist([tr(t) for t in case["container"]["tree"]])
+    ty = case["container"]["type"]
+    if ty == "score":
+        return "(AScore %s)" % trees
+    if ty in ("group", "part"):
+        return "(AOne %s)" % tr(case["container"]["tree"][0])
+    return "(ASeq %s)" % trees
 
 
 def c_case(case, obs):
@@ -744,7 +975,7 @@ def c_case(case, obs):
     elif len(flat) == 1:
         after = snapshot(obs["objs"], obs["oid_of"])
         idx = obs["returned_idx"] if obs["returned_idx"] is not None else 99
-        o = "(OSingle %s %s)" % (cnat(idx), c_part(case, after, flat[0]))
+        o = "(OSingle %s %s)" % (cnat(idx), c_part(case, after, flat[0], obs["divs"]))
         marr = sarr = "[]"
         Ls = cz(1)
     else:
@@ -754,10 +985,32 @@ def c_case(case, obs):
         marr = clist(["(%s, %s, %s, %s, %s)" % (cz(r["onset_div"]), cz(r["duration_div"]), cz(r["pitch"]), cz(r["voice"]), cz(r["staff"])) for r in obs["marr"]])
         sarr = clist(["(%s, %s, %s)" % (cz(r["onset_div"]), cz(r["duration_div"]), cz(r["pitch"])) for r in obs["sarr"]])
         Ls = cz(int(obs["sarr"]["divs_pq"][0])) if len(obs["sarr"]) else cz(1)
-    return "(%s, %s, %s, (%s : list nrow), %s, (%s : list (Z * Z * Z)))" % (CMODE[case["mode"]], c_trees(case, before), o, marr, Ls, sarr)
+    return "(%s, %s, %s, (%s : list nrow), %s, (%s : list (Z * Z * Z)))" % (CMODE[case["mode"]], c_trees(case, before, obs.get("divs")), o, marr, Ls, sarr)
 
 
-CHECKER = "fun c => match c with (m, ts, o, marr, Ls, sarr) => full_case_ok m ts o marr Ls sarr end"
+CHECKER = "fun c => match c with (m, a, o, marr, Ls, sarr) => full_case_ok m a o marr Ls sarr end"
+# the components of full_case_ok, to name what disagrees on a failing case
+COMPONENTS = [
+    ("result (returned part / lcm / elements with origin, class, start, end, voice, staff)",
+     "fun c => match c with (m, a, o, marr, Ls, sarr) => case_ok m (arg_trees a) o end"),
+    ("closed forms (offsets as running sums, structural elements of the first input) on the observed elements",
+     "fun c => match c with (m, a, o, marr, Ls, sarr) => match o with OMerged L out => offsets_ok m (flat_map flatten (arg_trees a)) L out && structural_ok m (flat_map flatten (arg_trees a)) L out | _ => true end end"),
+    ("note array (onset, duration, pitch, voice, staff) of the merged part",
+     "fun c => match c with (m, a, o, marr, Ls, sarr) => match o with OMerged _ _ => merged_array_ok m (arg_trees a) marr | _ => true end end"),
+    ("score-level note array of the inputs (note_array_from_part_list: onset_div, duration_div, pitch, one divs_pq = lcm)",
+     "fun c => match c with (m, a, o, marr, Ls, sarr) => match o with OMerged _ _ => score_array_ok (arg_trees a) Ls sarr | _ => true end end"),
+]
+
+
+def diagnose(ctx, term):
+    bad = []
+    for k, (what, chk) in enumerate(COMPONENTS):
+        try:
+            if ctx.coq_failing("merge_diag%d" % k, "From PV Require Import Lib.Base Model.C05 Model.C15.", "", [term], chk, shard=60):
+                bad.append(what)
+        except RuntimeError:
+            pass
+    return "; ".join(bad) or "link between the two arrays"
 
 
 # ----------------------------------------------------------------------------
@@ -821,7 +1074,7 @@ def shrink_case(case, fclass, budget=80):
         except Exception:
             return False
     # whole parts first (never below two parts; the container becomes a plain list)
-    while len(case["parts"]) > 2:
+    while len(case["parts"]) > 2 and not case.get("pre"):
         for pi in range(len(case["parts"]) - 1, -1, -1):
             cand = dict(case, parts=[p for k, p in enumerate(case["parts"]) if k != pi])
             cand["container"] = {"type": "list", "tree": list(range(len(cand["parts"])))}
@@ -852,6 +1105,10 @@ def shrink_case(case, fclass, budget=80):
     return case
 
 
+def st_(e):
+    return e["staff"] if e.get("staff") is not None else 1
+
+
 def features(case):
     f = set()
     ds = [p["divs"] for p in case["parts"]]
@@ -865,8 +1122,15 @@ def features(case):
     if lcm_list(ds) > max(ds):
         f.add("lcm_exceeds_all")
     for pi, p in enumerate(case["parts"]):
-        gn = [e for e in p["elems"] if e["cls"] in ("Note", "GraceNote", "Rest")]
-        notes = [e for e in gn if e["cls"] != "Rest"]
+        gn = [e for e in p["elems"] if e["cls"] in GENERIC_CLS]
+        notes = [e for e in gn if e["cls"] in SOUNDING_CLS]
+        unp = [e for e in gn if e["cls"] in ("UnpitchedNote", "GenericNote")]
+        if unp:
+            f.add("unpitched_notes")
+            if {e["voice"] for e in unp} - {e["voice"] for e in gn if e not in unp}:
+                f.add("voice_of_unpitched_notes_only" + ("_in_non_last_part" if pi < len(case["parts"]) - 1 else ""))
+            if {st_(e) for e in unp} - {st_(e) for e in p["elems"] if "staff" in e and e not in unp}:
+                f.add("staff_of_unpitched_notes_only")
         if any(e["staff"] is None for e in gn) and any(e["staff"] is not None for e in gn):
             f.add("staff_mixed")
         elif gn and all(e["staff"] is None for e in gn):
@@ -897,6 +1161,10 @@ def features(case):
             f.add("part_without_notes")
     if case.get("pickup"):
         f.add("pickup")
+    if case.get("pre"):
+        f.add("history_first_input_is_a_merged_part")
+    if voiceless(case):
+        f.add("voiceless_note_or_rest(outside_quantifier)")
     ids = [p["id"] for p in case["parts"]]
     if len(set(ids)) == 1:
         f.add("part_ids_all_equal")
@@ -906,7 +1174,7 @@ def features(case):
         f.add("same_id_as_first_with_other_divisions")
     if not case["parts"][0]["elems"]:
         f.add("first_part_empty")
-    elif not any(e["cls"] in ("Note", "GraceNote") for e in case["parts"][0]["elems"]):
+    elif not any(e["cls"] in SOUNDING_CLS for e in case["parts"][0]["elems"]):
         f.add("first_part_without_notes")
     if case["parts"][0]["divs"] != lcm_list(ds):
         f.add("first_part_divisions_below_lcm")
@@ -941,14 +1209,15 @@ def match_k2(r):
 
 
 def check_loader(case, workdir, k):
-    """save the case's parts as MusicXML, load it as a score and as one part; the sounding notes agree.
-    Returns None, 'skip: ...' or a failure message."""
+    """save the case's parts as MusicXML, load it as a score and as one part.
+    Returns (verdict, coq_term): verdict None (holds), 'skip: ...' or a failure message; coq_term (or None) is the
+    case for the model's loader_case_ok: the parts of load_score(file) and the note array of the loader's part."""
     import partitura
     import partitura.score as S
     for sp in case["parts"]:
         cl = {e["cls"] for e in sp["elems"]}
         if not {"Measure", "TimeSignature"} <= cl:
-            return "skip: part without measures"
+            return "skip: part without measures", None
     parts = [build_part(sp)[0] for sp in case["parts"]]
     fn = os.path.join(workdir, "loader_%d.musicxml" % k)
     try:
@@ -956,20 +1225,51 @@ def check_loader(case, workdir, k):
         sc = partitura.load_score(fn)
         ref = sc.note_array()
     except Exception as e:
-        return "skip: export/import (%s)" % type(e).__name__
+        return "skip: export/import (%s)" % type(e).__name__, None
+    if any(len(p._quarter_durations) != 1 for p in sc.parts):
+        return "skip: loaded part with several divisions", None
+    # what load_score gives (the loader merges a second load of the same file)
+    objs = [list(all_elements(p)) for p in sc.parts]
+    oid_of = {id(o): 1000 * (pi + 1) + ei for pi, os_ in enumerate(objs) for ei, o in enumerate(os_)}
+    before = snapshot(objs, oid_of)
+    divs = [int(p._quarter_durations[0]) for p in sc.parts]
+    owner = {}
+    for pi, p in enumerate(sc.parts):
+        for n in p.iter_all(S.GenericNote, include_subclasses=True):
+            owner.setdefault(n.id, set()).add(pi)
     try:
         from partitura.io import load_score_as_part
         one = load_score_as_part(fn)
     except Exception as e:
-        return "load_score_as_part raised %s: %s" % (type(e).__name__, e)
-    if len(sc.parts) == 1:
-        return None if isinstance(one, S.Part) else "load_score_as_part did not return a Part"
-    arr = one.note_array(include_divs_per_quarter=True)
+        return "load_score_as_part raised %s: %s" % (type(e).__name__, e), None
+    if not isinstance(one, S.Part):
+        return "load_score_as_part did not return a Part", None
+    arr = one.note_array(include_staff=True, include_divs_per_quarter=True)
     a = sorted((Fraction(int(r["onset_div"]), int(r["divs_pq"])), Fraction(int(r["duration_div"]), int(r["divs_pq"])), int(r["pitch"])) for r in arr)
     b = sorted((Fraction(int(r["onset_div"]), int(r["divs_pq"])), Fraction(int(r["duration_div"]), int(r["divs_pq"])), int(r["pitch"])) for r in ref)
     if a != b:
-        return "load_score_as_part: sounding notes differ from the score-level note array of load_score (%d vs %d rows)" % (len(a), len(b))
-    return None
+        return "load_score_as_part: sounding notes differ from the score-level note array of load_score (%d vs %d rows)" % (len(a), len(b)), None
+    if len(sc.parts) > 1:
+        L = lcm_list(divs)
+        if list(one._quarter_durations) != [L]:
+            return "load_score_as_part: the part counts in %r, expected the lcm %d of %r" % (list(one._quarter_durations), L, divs), None
+        # notes of different parts of the file never share a (voice, staff) pair (holds in every reassign mode)
+        if all(len(v) == 1 for v in owner.values()) and None not in owner:
+            pairs = {}
+            for n in one.iter_all(S.GenericNote, include_subclasses=True):
+                if n.id in owner:
+                    pairs.setdefault((n.voice, n.staff), set()).update(owner[n.id])
+            bad = sorted((k_ for k_, v in pairs.items() if len(v) > 1), key=str)
+            if bad:
+                return "load_score_as_part: notes of parts %s of the file share voice %s on staff %s" % (sorted(pairs[bad[0]]), bad[0][0], bad[0][1]), None
+    term = "(%s, %s, (%s : list nrow))" % (
+        clist(["((%s : list elem), %s)" % (clist([c_elem(x) for x in before if x["part"] == pi]), cz(divs[pi])) for pi in range(len(divs))]),
+        "true" if len(sc.parts) == 1 else "false",
+        clist(["(%s, %s, %s, %s, %s)" % (cz(r["onset_div"]), cz(r["duration_div"]), cz(r["pitch"]), cz(r["voice"]), cz(r["staff"])) for r in arr]))
+    return None, term
+
+
+LOADER_CHECKER = "fun c => match c with (ps, single, impl) => loader_case_ok ps single impl end"
 
 
 # ----------------------------------------------------------------------------
@@ -998,15 +1298,19 @@ def report(ctx, case, fclass, msg, obs, soft_detail=None):
     replay_obj = {"kind": "merge", "case": small, "fclass": fclass, "message": m2 or msg}
     if detail:
         replay_obj["detail"] = detail
-    ctx.violation("merge_parts(reassign=%r) on %d parts (divisions %r, %s): %s" % (
-        small["mode"], len(small["parts"]), [p["divs"] for p in small["parts"]], small["container"]["type"], m2 or msg), replay_obj)
+    ctx.violation("merge_parts(reassign=%r) on %d parts (divisions %r, %s %s%s): %s" % (
+        small["mode"], len(small["parts"]), [p["divs"] for p in small["parts"]], small["container"]["type"],
+        json.dumps(small["container"]["tree"]).replace(" ", ""),
+        (", first %d merged before in %r mode" % (small["pre"]["k"], small["pre"]["mode"])) if small.get("pre") else "", m2 or msg), replay_obj)
 
 
 def run(ctx):
-    ctx.rule = ("A case is (reassign mode, container shape, 1-4 part specifications); parts are built through the public API and "
+    ctx.rule = ("A case is (reassign mode, argument shape = forest of parts and groups in a list / tuple / Score / PartGroup, 1-4 part "
+                "specifications, optionally a history: the first k parts merged before); parts are built through the public API and "
                 "rebuilt for every call.  Every call of merge_parts is one evaluation (plus one for the score-level note array of "
                 "fresh copies).  Distinct non-trivial = distinct case specifications with at least two parts (different or equal "
-                "divisions, voices/staves to renumber), or single-part containers (identity).")
+                "divisions, voices/staves to renumber), or single-part containers (identity).  The class sweep contributes one case per "
+                "(TimedObject class of the live partitura.score, mode) -- complete in the thorough tier.")
     ctx.trusted = ["Coq 8.16.1 kernel incl. vm_compute",
                    "harness/props/c15.py: generators, object snapshots (identity of the Python objects), Coq printers, Python oracle",
                    "Part.add / iter_all place and enumerate objects as specified (C01); Part.note_array and Score.note_array (C05) as readers of the sounding notes",
@@ -1018,24 +1322,34 @@ def run(ctx):
                        "object ids unique; tie links stay inside a part and are acyclic"]
     ctx.matchers["C15-K1"] = match_k1
     ctx.matchers["C15-K2"] = match_k2
-    ok, why = ctx.coq_props(expect_min=18)
+    ok, why = ctx.coq_props(expect_min=31)
     if not ok:
         ctx.log("coq_props failed: " + why[:2000])
     quick = ctx.tier == "quick"
     nv0 = len(ctx.violations)
     rng = ctx.rng
     cases = [("corpus", c) for c in corpus_cases()]
-    for k in range(110 if quick else 2000):
+    for k in range(110 if quick else 1400):
         cases.append(("random", gen_case(rng)))
     for mode in MODES:          # weight on the corner the property singles out, in every mode
         for k in range(8 if quick else 50):
             cases.append(("random", gen_case(rng, mode=mode)))
+        for k in range(4 if quick else 25):     # histories: a merged part merged again (first merge in any mode)
+            cases.append(("random", gen_case(rng, mode=mode, force_history=True)))
     ss = small_scope_cases()
     if quick:
-        ss = [ss[i] for i in sorted(rng.sample(range(len(ss)), 100))]
+        ss = [ss[i] for i in sorted(rng.sample(range(len(ss)), 60))]
     cases += [("small_scope", c) for c in ss]
     cases.append(("random", gen_case(rng, mode="auto", force_many_voices=True)))
+    # every TimedObject class of the live hierarchy, in every mode (complete finite domain)
+    sweep, skipped = class_sweep_cases(complete=not quick, rot=ctx.seed)
+    cases += [("class_sweep", c) for c in sweep]
+    ctx.extra["class_sweep"] = {"classes": live_classes(), "not_instantiated": skipped, "cases": len(sweep),
+                                "complete_domain": not quick}
+    ctx.obligation("class sweep: every TimedObject class of partitura.score is instantiated (%d classes, %d cases)" % (len(live_classes()), len(sweep)),
+                   not skipped, skipped[:5])
     terms, tcases = [], []
+    rterms = []                 # cases outside the quantifier (a note or rest without voice): recorded, never a violation
     seen_fail = {}
     ctx.log("cases generated: %d" % len(cases))
     for origin, case in cases:
@@ -1047,7 +1361,10 @@ def run(ctx):
         ctx.evaluations += 2 if len(case["parts"]) > 1 else 1
         ctx.count("origin:" + origin)
         ctx.count("mode:" + case["mode"])
-        ctx.count("container:" + case["container"]["type"] + ("(nested)" if any(not isinstance(t, int) for t in case["container"]["tree"]) else ""))
+        tree = case["container"]["tree"]
+        ctx.count("container:" + case["container"]["type"] + (
+            "(group before a part)" if any(not isinstance(tree[i], int) and any(isinstance(y, int) for y in tree[i + 1:]) for i in range(len(tree)))
+            else "(nested)" if any(not isinstance(t, int) for t in tree) else ""))
         ctx.count("parts=%d" % len(case["parts"]))
         for f in sorted(features(case)):
             ctx.count("feature:" + f)
@@ -1065,6 +1382,14 @@ def run(ctx):
             if seen_fail[key] <= 2:
                 report(ctx, case, fclass, msg, obs)
             continue
+        if obs.get("expected_raise") or obs.get("outside_quantifier"):
+            ctx.count("outside_quantifier:" + ("raises" if obs.get("expected_raise") else "merged_without_raising"))
+            if obs.get("expected_raise"):
+                try:
+                    rterms.append(c_case(case, obs))
+                except Exception:
+                    pass
+            continue
         ctx.count("oracle:ok")
         if obs.get("quarters_compared"):
             ctx.count("oracle:quarter_columns_compared")
@@ -1077,22 +1402,28 @@ def run(ctx):
             ctx.violation("cannot print case for Coq: %r" % e, {"kind": "merge", "case": case, "fclass": "printer"}, no_input=True)
     ctx.log("oracle done")
     # the loader that relies on merge_parts
-    nload = 6 if quick else 60
+    nload = 8 if quick else 60
     done = 0
+    lterms, lcases = [], []
     for k in range(nload * 3):
         if done >= nload:
             break
         case = gen_case(rng, mode="voice")
-        if len(case["parts"]) < 2:
+        case.pop("pre", None)
+        if len(case["parts"]) < (1 if k % 8 == 7 else 2):
             continue
+        for i, sp in enumerate(case["parts"]):         # ids as a file has them: unique over the file
+            sp["note_prefix"] = "q%d" % i
         try:
-            r = check_loader(case, ctx.work, k)
+            r, term = check_loader(case, ctx.work, k)
         except Exception as e:
-            r = "skip: %s" % type(e).__name__
+            r, term = "skip: %s" % type(e).__name__, None
         if r is None:
             done += 1
             ctx.evaluations += 1
             ctx.count("loader:ok")
+            lterms.append(term)
+            lcases.append(case)
         elif r.startswith("skip"):
             ctx.count("loader:" + r)
         else:
@@ -1102,6 +1433,18 @@ def run(ctx):
         if fn.startswith("loader_"):
             os.remove(os.path.join(ctx.work, fn))
     ctx.log("loader done")
+    if lterms:
+        try:
+            failing = ctx.coq_failing("loader", "From PV Require Import Lib.Base Model.C05 Model.C15.", "", lterms, LOADER_CHECKER, shard=20)
+            ctx.obligation("correspondence: model load_as_part (merge_parts in 'voice' mode on the parts of load_score(file)) gives the note array "
+                           "(onset, duration, pitch, voice, staff) of load_score_as_part(file) on %d exported files" % len(lterms), not failing, failing[:5])
+            for i in failing[:2]:
+                ctx.violation("Coq model and implementation disagree on load_score_as_part (%d parts, divisions %r)" % (
+                    len(lcases[i]["parts"]), [p["divs"] for p in lcases[i]["parts"]]),
+                    {"kind": "loader", "case": lcases[i], "fclass": "loader_correspondence", "message": "model/implementation disagree"})
+        except RuntimeError as e:
+            ctx.obligation("correspondence: loader", False, str(e)[-1500:])
+            ctx.violation("correspondence machinery failed (loader): %s" % str(e)[-800:], {"stage": "loader"}, no_input=True)
     # correspondence
     what = ("model merge_parts (returned part / lcm, every element with origin, class, start, end, voice, staff) = implementation; "
             "model note array of the merged elements = merged part's note_array(include_staff); C05 score_array of the inputs = "
@@ -1114,11 +1457,20 @@ def run(ctx):
             ctx.obligation("correspondence: %s on %d cases" % (what, len(terms)), not failing, failing[:5])
             for i in failing[:3]:
                 c = tcases[i]
-                ctx.violation("Coq model and implementation disagree on merge_parts(reassign=%r), divisions %r" % (c["mode"], [p["divs"] for p in c["parts"]]),
-                              {"kind": "merge", "case": c, "fclass": "correspondence", "message": "model/implementation disagree"})
+                what_bad = diagnose(ctx, terms[i])
+                ctx.violation("Coq model and implementation disagree on merge_parts(reassign=%r), divisions %r, %s %s: %s" % (
+                    c["mode"], [p["divs"] for p in c["parts"]], c["container"]["type"], json.dumps(c["container"]["tree"]).replace(" ", ""), what_bad),
+                    {"kind": "merge", "case": c, "fclass": "correspondence", "message": "model/implementation disagree on: " + what_bad})
         except RuntimeError as e:
             ctx.obligation("correspondence: %s" % what, False, str(e)[-1500:])
             ctx.violation("correspondence machinery failed: %s" % str(e)[-800:], {"stage": "merge"}, no_input=True)
+    if rterms:
+        try:
+            failing = ctx.coq_failing("raise", "From PV Require Import Lib.Base Model.C05 Model.C15.", "", rterms, CHECKER, shard=60)
+            ctx.obligation("outside the quantifier (recorded only): a note or rest without voice makes merge_parts raise in 'voice' / 'auto' mode exactly "
+                           "when the model does (merge_raises_iff) on %d cases" % len(rterms), not failing, failing[:5])
+        except RuntimeError as e:
+            ctx.obligation("outside the quantifier (recorded only): raise cases", False, str(e)[-800:])
     if not ok and len(ctx.violations) == nv0:
         ctx.violation("proof obligations of Props/C15.v no longer check: " + why, {"theorem_or_build": why}, no_input=True)
 
@@ -1144,7 +1496,7 @@ def replay(obj):
             print("oracle (reported separately):", sf, sm)
     elif r.get("kind") == "loader":
         os.makedirs(os.path.join(core.WORKROOT, "C15_replay"), exist_ok=True)
-        print("oracle:", check_loader(r["case"], os.path.join(core.WORKROOT, "C15_replay"), 0))
+        print("oracle:", check_loader(r["case"], os.path.join(core.WORKROOT, "C15_replay"), 0)[0])
     else:
         print(json.dumps(r, indent=1, default=str))
     return 0
